@@ -302,18 +302,31 @@ pub fn run(repo: &Path, out: &Path) -> Result<(), String> {
 
     // compare with the committed expectation
     let exp: serde_json::Value = fs::read_to_string(format!("{}/inventories/expected.json", std::env::var("VERIF_ROOT").unwrap_or_else(|_| "/verif".to_string()))).ok().and_then(|t| serde_json::from_str(&t).ok()).unwrap_or(serde_json::json!({}));
+    // An inventory lists sites that need an argument (a panic site, a raw cursor access, a comparison
+    // by spelling, ...).  Only sites that are NEW with respect to the committed expectation are open
+    // obligations; a site that disappeared needs no argument any more (reported in the note only).
+    // `pipeline_bodies` are whole normalised bodies, so a changed body shows up as a new entry.
     let diff = |name: &str| -> (bool, String) {
         let tolist = |v: &serde_json::Value| -> Set<String> {
             match v {
                 serde_json::Value::Array(a) => a.iter().map(|x| x.as_str().unwrap_or("").to_string()).collect(),
-                serde_json::Value::Object(o) => o.iter().map(|(k, v)| format!("{k} x{v}")).collect(),
                 _ => Set::new(),
             }
         };
+        if let (serde_json::Value::Object(c), e) = (&cur[name], &exp[name]) {
+            // counted inventories (fn -> number of uses): an obligation when a count grows
+            let mut grown: Vec<String> = vec![];
+            let mut shrunk = 0;
+            for (k, v) in c {
+                let (n, m) = (v.as_u64().unwrap_or(0), e.get(k).and_then(|x| x.as_u64()).unwrap_or(0));
+                if n > m { grown.push(format!("{k} x{n} (was x{m})")); } else if n < m { shrunk += 1; }
+            }
+            return (grown.is_empty(), format!("{} entries; grown: {:?}; shrunk: {}", c.len(), grown.iter().take(6).collect::<Vec<_>>(), shrunk));
+        }
         let (a, b) = (tolist(&cur[name]), tolist(&exp[name]));
         let added: Vec<&String> = a.difference(&b).collect();
         let removed: Vec<&String> = b.difference(&a).collect();
-        (added.is_empty() && removed.is_empty(), format!("{} entries; new: {:?}; gone: {:?}", a.len(), added.iter().take(6).collect::<Vec<_>>(), removed.iter().take(6).collect::<Vec<_>>()))
+        (added.is_empty(), format!("{} entries; new: {:?}; gone (no obligation): {:?}", a.len(), added.iter().take(6).collect::<Vec<_>>(), removed.iter().take(6).collect::<Vec<_>>()))
     };
     let mk = |names: &[&str]| -> serde_json::Value {
         let mut m = serde_json::Map::new();
